@@ -39,3 +39,6 @@ def run(repo, res, tier):
     # the name the repair hook gives the next statement is the text that stood in the label
     from .. import hookrules as _hk8
     _hk8.rule_token_src(repo, res)
+    # token positions index the parser's own copy of the text (self.doc): the lexer does not work on a rewritten one
+    from .. import lexrules as _lx8
+    _lx8.rule_lex_text(repo, res)
